@@ -398,7 +398,7 @@ def check_case(spec):
             opts = tdgl.SolverOptions(solve_time=0.02, dt_init=0.01, adaptive=False, save_every=1,
                                       field_units="mT", current_units="uA")
             try:
-                solver = tdgl.TDGLSolver(dev, opts, applied_vector_potential=A)
+                solver = build.make_solver(dev, opts, applied_vector_potential=A)
                 sol = solver.solve()
                 outs[name] = (np.array(solver.current_A_applied), np.array(sol.tdgl_data.psi), solver.dynamic_vector_potential)
             except Exception as exc:  # noqa: BLE001
